@@ -220,12 +220,20 @@ theorem cl_stepThread (s : State) (t : Nat) (th : Thread) (hp : P s) : P (stepTh
     split
     · exact h'
     · exact cl_stamp hc _ _ (cl_gop hc s' _ _ h')
+  have cl_processExpired : ∀ s' th' gs evs, P s' → P (processExpired s' t th' gs evs).1 := by
+    intro s' th' gs evs h'
+    unfold processExpired
+    split
+    · exact cl_advance hc t _ _ _ _ h'
+    · exact cl_stamp hc _ _ h'
   unfold stepThread
   simp only []
   repeat' split
   all_goals first
     | exact hp
     | exact cl_advance hc t _ _ _ _ hp
+    | exact cl_processExpired _ _ _ _ (hc s _ hp)
+    | exact cl_processExpired _ _ _ _ (cl_release hc s _ hp)
     | exact cl_gotGuard _ _ _ _ hp
     | exact cl_lookup hc s _ _ hp
     | exact hc s _ hp
